@@ -166,8 +166,12 @@ def broken_variants(rng, path):
     v.append(("stray_eq", path + b"="))
     v.append(("only_eq", b"="))
     v.append(("empty", b""))
+    # an empty step name in the middle or at the end: "sec|=x", "sec|=", "sec|='t'"
+    for t in (b"|=x", b"|=", b"|='t'", b"|=0"):
+        v.append(("mid_eq", path + t))
     if b"|" in path:
         i = path.index(b"|")
+        v.append(("mid_eq", path[:i] + b"|=" + path[i + 1:]))
         v.append(("dup_sep", path[:i] + b"||" + path[i + 1:]))
         v.append(("drop_sep", path[:i] + path[i + 1:]))
     if b"=" in path:
@@ -208,7 +212,7 @@ def generate(rng, tier):
             for kind, path, steps, leaf, _k in queries:
                 lines.append("%s 0 %s" % (kind, hx(path)))
             # failing by-path setters / removers must change nothing
-            bad = [q for q in queries if q[4] in ("lead_sep", "trail_sep", "stray_eq", "only_eq", "empty", "bad_qual")][:3]
+            bad = [q for q in queries if q[4] in ("lead_sep", "trail_sep", "stray_eq", "only_eq", "empty", "bad_qual", "mid_eq")][:4]
             for kind, path, *_ in bad:
                 lines += ["SI 0 %s 0 424242" % hx(path), "RS 0 %s" % hx(path)]
             lines.append("D 0")
@@ -248,7 +252,7 @@ def oracle(case, il, ctx):
             exp = exp if exp is not None else "none"
             if got != exp:
                 return "path %r resolved to %s, stepwise navigation gives %s" % (path, got, exp)
-        elif bk in ("lead_sep", "trail_sep", "stray_eq", "only_eq", "empty"):
+        elif bk in ("lead_sep", "trail_sep", "stray_eq", "only_eq", "empty", "mid_eq"):
             if got != "none":
                 return "malformed path %r (%s) resolved to %s" % (path, bk, got)
     # failing setters/removers changed nothing
